@@ -99,7 +99,7 @@ V("C02", "findings-threshold-31", "fire", (FT, "all_report_units_sorted_by_lengt
   "text findings drop 31", "print_findings")
 V("C02", "findings-threshold-md-29", "fire", (FM, "all_report_units_sorted_by_length_asc(30)", "all_report_units_sorted_by_length_asc(29)"),
   "markdown findings include 30", "print_findings")
-V("C02", "findings-ge-threshold", "fire", (REP, "if m.value > threshold:", "if m.value >= threshold:"), "30 is a finding", "all_report_units")
+V("C02", "findings-ge-threshold", "fire", (REP, "if m.value > threshold:", "if m.value >= threshold:"), "30 is a finding", "print_findings")
 V("C02", "findings-asc", "fire", (REP, "key=lambda unit: unit.measurement.value, reverse=True)", "key=lambda unit: unit.measurement.value)"),
   "findings shortest first", "order")
 V("C02", "md-symbol-59", "fire", (FM, '        type = "\\u274C" if unit.measurement.value > 60 else "\\u26A0"',
